@@ -95,6 +95,9 @@ def close(a, b, tol=1e-9):
     terms = []
     for x, y in zip(a.flat, b.flat):
         d = x - y
+        if isinstance(d, (complex, _np.complexfloating)):
+            terms.append(abs(d) <= tol)
+            continue
         c1 = d <= tol
         c2 = d >= -tol
         terms.append(c1)
